@@ -258,6 +258,46 @@ def cli(run, scratch):
                         run.violation("cli-line-ends", {"cli"}, case, "LF found in the written file (OS-9 line ends are CR)")
 
 
+def cli_names(run, scratch):
+    """the procedure is named after the input file: every stem shape the OS-9 / BASIC09 naming rules allow"""
+    import importlib
+    m = importlib.import_module("coco.decb_to_b09")
+    d = os.path.join(scratch, "cli11n")
+    os.makedirs(d, exist_ok=True)
+    text = '10 A$=INKEY$:PRINT STR$(1);A$\n20 GOTO 10\n'
+    stems = ["alpha", "A", "x1", "9lives", "a_b", "_u", "star-trek", "my-prog-2", "-", "a-", "Z9_-x", "UPPER", "p" * 29]
+    for stem in stems:
+        for ext in (".bas", ".BAS", ".txt", ""):
+            for flags in ([], ["-l", "-z"], ["-w", "-s", "80"]):
+                run.states += 1
+                run.transitions += 1
+                run.evaluations += 1
+                inp = os.path.join(d, stem + ext)
+                outp = os.path.join(d, "out.b09")
+                with open(inp, "w", newline="") as f:
+                    f.write(text)
+                old = sys.stdout, sys.stderr
+                err = None
+                try:
+                    sys.stdout, sys.stderr = io.StringIO(), io.StringIO()
+                    try:
+                        m.start(flags + [inp, outp])
+                    except SystemExit as e:
+                        err = f"SystemExit({e.code})"
+                    except Exception as e:  # noqa
+                        err = type(e).__name__
+                finally:
+                    sys.stdout, sys.stderr = old
+                os.remove(inp)
+                case = {"gen": "cli-name", "stem": stem, "ext": ext, "flags": flags}
+                if err:
+                    continue  # crashes are C15's business
+                got = open(outp, "r", newline="").read()
+                heads = re.findall(r"(?im)^procedure[ \t]+(\S+)[ \t]*$", got.replace("\r", "\n"))
+                if not heads or heads[-1] != stem:
+                    run.violation("cli-procedure-name", {"cli", "cli-name"}, case, f"start({flags + [stem + ext, 'out.b09']}): the program's procedure is named {heads[-1] if heads else None!r}, expected {stem!r}")
+
+
 def run(run):
     run.rule = ("per program all 32 option sets are converted and all 80 single-option flips are checked with the relation documented for the flipped option; "
                 "CLI: 32 flag subsets (+ config file) x 2 file-name pairs x sub-corpus; distinct = programs; non-trivial = accepted")
@@ -279,6 +319,7 @@ def run(run):
                 run.violation(sym, {"prog:" + name}, {"gen": "flip", "name": name, "text": text, "extra": extra}, f"{name}: {detail}\nsource: {text!r}")
     run.distinct_n = acc
     cli(run, run.scratch_dir())
+    cli_names(run, run.scratch_dir())
 
 
 def replay(case):
